@@ -2404,7 +2404,8 @@ impl CharacterDataMut for XmlComment {
         if self.length() < offset {
             Err(error::DomException::IndexSizeErr)?
         } else {
-            self.data.borrow_mut().delete(offset, count);
+            // validate what is left: deleting may join `-` and `-`, or `]]` and `>`.
+            self.data.borrow_mut().replace(offset, count, "")?;
             Ok(())
         }
     }
@@ -2601,7 +2602,8 @@ impl CharacterDataMut for XmlCDataSection {
         if self.length() < offset {
             Err(error::DomException::IndexSizeErr)?
         } else {
-            self.data.borrow_mut().delete(offset, count);
+            // validate what is left: deleting may join `-` and `-`, or `]]` and `>`.
+            self.data.borrow_mut().replace(offset, count, "")?;
             Ok(())
         }
     }
